@@ -335,7 +335,21 @@ func rulesC13(c *Ctx) {
 					okC = true
 				}
 			}
-			c.Check(okC, side.conn+".Close:cancels-keepalive", cl, nil, "Close calls keepaliveCancel (ordering checked by R-C05-4)")
+			c.Check(okC, side.conn+".Close:cancels-keepalive", cl, nil, "Close calls keepaliveCancel")
+			// … before it waits for the connection: conn.Close blocks until running handlers return, and a keep-alive that is
+			// still ticking meanwhile pings a closing connection, fails, and logs an error instead of ending silently
+			clg := cl.Graph()
+			connClose := c.FnObj(pJ, "Connection", "Close")
+			okOrd := false
+			for _, cv := range clg.callVertices(connClose) {
+				for _, call := range cl.AllCalls(cl.Body, false) {
+					if cl.IsField(call.Fun, ka) && clg.ReachableFrom(clg.VertexOf(call))[cv] && !clg.ReachableFrom(cv)[clg.VertexOf(call)] {
+						// every path to conn.Close on which a cancel function exists passes the call
+						okOrd = true
+					}
+				}
+			}
+			c.Check(okOrd, side.conn+".Close:cancels-keepalive-first", cl, nil, "keepaliveCancel() is called before conn.Close()")
 		}
 	})
 
